@@ -50,12 +50,14 @@ def run(chk: Check):
         if not rn.violated:
             raise MachineryError(f"negative config {m} not rejected")
     rng = np.random.default_rng(500 + chk.seed)
-    cases = [("uhf", 3, 2, 1, 2), ("uhf", 3, 1, 1, 1)] + ([("noci", 3, 2, 1, 2), ("ghf", 2, 1, 1, 2), ("uhf", 3, 2, 2, 3),
+    # ("...", "complex-h1"): a complex Hermitian one-body part h1 = S + iA (A antisymmetric: a magnetic flux / twisted
+    # boundary); TLC supplies the matrices of both parts
+    cases = [("uhf", 3, 2, 1, 2), ("uhf", 3, 1, 1, 1), ("uhf", 3, 2, 1, 1, "complex-h1")] + ([("noci", 3, 2, 1, 2), ("ghf", 2, 1, 1, 2), ("uhf", 3, 2, 2, 3),
                                                             ("ucisd", 3, 1, 1, 2)] if big else [])
     recs, rinfo = [], {}
     traces, tinfo = [], {}
     SC = 1.0 / 8.0
-    for ci, (kind, norb, nu, nd, nchol) in enumerate(cases):
+    for ci, (kind, norb, nu, nd, nchol, *flags) in enumerate(cases):
         I = wf.make_instance(ci + 1, rng, kind, norb, nu, nd, nchol, 1, False, spin_dep=True, want=())
         ham = I["ham"]
         cfgs, H = wf.hmatrix(chk, ham, norb, nu, nd, rid=ci + 1, name=f"c05-{ci}")
@@ -63,6 +65,15 @@ def run(chk: Check):
         trial, wd, hd0, hm = wf.build_lib(I)
         hd0["h0"] = ham["h0"] * SC
         hd0["h1"] = hd0["h1"] * SC
+        if "complex-h1" in flags:
+            a_ = rng.integers(-2, 3, size=(norb, norb))
+            A = a_ - a_.T
+            cfgs2, HA = wf.hmatrix(chk, {"h0": 0.0, "h1u": A, "h1d": A, "chol": [np.zeros((norb, norb), dtype=int)]}, norb, nu, nd,
+                                   rid=100 + ci, name=f"c05-{ci}-A")
+            if cfgs2 != cfgs:
+                raise MachineryError("configuration order differs between two oracle calls")
+            H = H + 1j * HA * SC
+            hd0["h1"] = hd0["h1"] + 1j * jnp.array(np.array([A, A]) * SC)
         hd0["chol"] = hd0["chol"] * np.sqrt(SC)
         ene0 = 0.4
         hd0["ene0"] = ene0
@@ -75,7 +86,9 @@ def run(chk: Check):
             nw = 3
             dt = 0.02
             prop = propagation.propagator_unrestricted(dt=dt, n_walkers=nw, n_exp_terms=nexp_terms)
-            hd = hm.build_measurement_intermediates(dict(hd0), trial, wd)
+            # (the measurement set-up of the mean-field trials symmetrises h1 with a plain transpose - it is written for real
+            # h1; the free-projection step itself needs only the propagation intermediates, which take a complex h1 as is)
+            hd = dict(hd0) if "complex-h1" in flags else hm.build_measurement_intermediates(dict(hd0), trial, wd)
             hd = hm.build_propagation_intermediates(hd, prop, trial, wd)
             ups = jnp.array(np.tile(wup[None], (nw, 1, 1)))
             dns = jnp.array(np.tile(wdn[None], (nw, 1, 1)))
@@ -126,7 +139,9 @@ def run(chk: Check):
             prop = propagation.propagator_unrestricted(dt=dt, n_walkers=K, n_exp_terms=10)
             # every other instance re-prepares the SAME dictionary for the next time step, as user code does
             # (ham_data = ham.build_..._intermediates(ham_data, ...)): nothing prepared for one dt may survive into the next
-            hd = hm.build_measurement_intermediates(hd_carry if (ci % 2 == 1 and hd_carry is not None) else dict(hd0), trial, wd)
+            hd = hd_carry if (ci % 2 == 1 and hd_carry is not None) else dict(hd0)
+            if "complex-h1" not in flags:
+                hd = hm.build_measurement_intermediates(hd, trial, wd)
             hd = hm.build_propagation_intermediates(hd, prop, trial, wd)
             hd_carry = hd
             ups = jnp.array(np.tile(wup[None], (K, 1, 1)))
@@ -159,7 +174,7 @@ def run(chk: Check):
                 chk.violation("truncated-exponential", f"_apply_trotprop_det with n_exp_terms={n_terms} deviates from expm by "
                               f"{np.linalg.norm(got - exact, 2)} > Taylor remainder {bound}", {"n_exp_terms": n_terms})
         # ---------------------------------------------------------- (d) the sampler's free block energy
-        if ci == 0:
+        if ci == 0 and "complex-h1" not in flags:
             nw = 4
             prop = propagation.propagator_unrestricted(dt=0.01, n_walkers=nw, n_exp_terms=10)
             hd = hm.build_measurement_intermediates(dict(hd0), trial, wd)
